@@ -1,10 +1,10 @@
-\* two versions with different members, non-relation members; 2 ids
+\* two versions with different members, non-relation members; 2 ids; undisturbed iteration; ProjectionLemma
 CONSTANTS
   N = 2
   MaxMem = 1
-  MaxReq = 1
+  MaxReq = 2
   Family = "mixed"
-  FlagFamily = "stops"
+  FlagFamily = "plain"
   WithBad = FALSE
   CanonicalReqs = TRUE
   VersionSets <- MCVersions
